@@ -51,3 +51,18 @@ CHECKS["C12"] = {
     "outside": ["the space is enumerated by forking (shapes x table contents x operation x target x name); payloads are symbolic but the solver is not needed to decide these obligations",
                 "external lookups that themselves mutate the environment"],
 }
+
+CHECKS["C13"] = {
+    "runs": [
+        R("./env", {"fn": r"^ZZ_C13_D1_"}, race=True),
+        R("./env", {"fn": r"^ZZ_C13_D2_two_goroutines_quick$"}, {"fn": r"^ZZ_C13_D2_two_goroutines$"}),
+    ],
+    "expect_asserts": [r"C13\.D1\.lock-discipline/.*", r"C13\.D2\.linearizable/.*"],
+    "bounds": {"quick": {"D1": "every exported Env method, one call from arbitrary state of <=2 scopes", "D2": "2 goroutines x 1 operation, <= 3 context switches at lock operations"},
+               "thorough": {"D1": "same", "D2": "2 goroutines x 1 operation, <= 8 context switches (all interleavings at lock granularity)"}},
+    "stubs": ["sync.RWMutex / WaitGroup / go: engine coroutine model, switch only at lock operations and goroutine start/end"],
+    "assumptions": ["lock discipline on e.values/e.types implies data-race freedom of those fields under the Go memory model (trusted inference)",
+                    "scheduling granularity = lock operations"],
+    "outside": ["memory-access interleavings observable only by the race detector under stress: not encoded; -race is used to replay D1 candidates",
+                "3 goroutines / 2 operations each"],
+}
